@@ -61,6 +61,8 @@ def pool_contents(rng):
     seg = {**geo.base_params(2, 1, 1, L=10, n=2), 'Number of Segments': 2, 'Gradient 1': 60, 'Thickness 1': 1.5}     # Gradient 2 left at its default
     pool['seg-default'] = geo.params_to_text(seg)
     pool['seg-set'] = geo.params_to_text({**seg, 'Gradient 2': 80, 'Thickness 2': 2.5})
+    # two segments whose first thickness is left at its default (and whose gradients differ): whatever an earlier run wrote into a shared default list shows here
+    pool['seg-thick-default'] = geo.params_to_text({**{k: v for k, v in seg.items() if k != 'Thickness 1'}, 'Gradient 1': 50, 'Gradient 2': 70})
     # --- contents that differ only where a careless cache key would not look (list tails, duplicate order, a comment, one digit) -----------
     seglist = {k: v for k, v in seg.items() if k not in ('Gradient 1', 'Thickness 1')}
     pool['list-a'] = geo.params_to_text(seglist) + 'Gradients, 50, 40\nThicknesses, 2, 1\n'
@@ -101,7 +103,7 @@ QP_BASES = ('ok0', 'ok1', 'dup-a', 'digit-a')
 OVERRIDES = {'g61': {'Gradient 1': 61}, 'u77': {'Utilization Factor': 0.77}}
 
 
-NEAR = [('mpf-a', 'mpf-b'), ('list-a', 'list-b'), ('dup-a', 'dup-b'), ('digit-a', 'digit-b'), ('seg-set', 'seg-default'), ('ok0', 'sparse'), ('ok1', 'sparse-heat'), ('badcalc', 'cyl'), ('ok0', 'badfile'), ('badfile', 'ok2'), ('list-vs-enum', 'list-a'), ('unit-a', 'unit-b'), ('ptc-a', 'ptc-b'), ('ptc-a', 'ptc-a')]
+NEAR = [('seg-set', 'seg-thick-default'), ('seg-default', 'seg-thick-default'), ('mpf-a', 'mpf-b'), ('list-a', 'list-b'), ('dup-a', 'dup-b'), ('digit-a', 'digit-b'), ('seg-set', 'seg-default'), ('ok0', 'sparse'), ('ok1', 'sparse-heat'), ('badcalc', 'cyl'), ('ok0', 'badfile'), ('badfile', 'ok2'), ('list-vs-enum', 'list-a'), ('unit-a', 'unit-b'), ('ptc-a', 'ptc-b'), ('ptc-a', 'ptc-a')]
 
 
 def reference(chk, pool):
@@ -212,7 +214,7 @@ def evaluate(chk: core.Check, n_hist):
         # (the start directory holds a different file under the relative name example 5 uses for its temperature history)
         (d / 'Examples').mkdir(exist_ok=True)
         (d / 'Examples' / 'ReservoirOutput.txt').write_text(''.join(f'{t / 4}\t,\t{150 - t / 6}\n' for t in range(0, 121)))
-        for j, c in enumerate(['list-vs-enum', 'dup-a', 'seg-default', 'ok0', 'ptc-a', 'ptc-b', 'ptc-a'] + (['reldata'] if 'reldata' in pool else [])):
+        for j, c in enumerate(['list-vs-enum', 'dup-a', 'seg-default', 'seg-thick-default', 'ok0', 'ptc-a', 'ptc-b', 'ptc-a'] + (['reldata'] if 'reldata' in pool else [])):
             ops += [['w', str(d / f'in{j}.txt'), c], ['q', str(d / f'in{j}.txt'), 0, 'fresh']]
         ops += [['m', str(d / 'in3.txt')], ['q', str(d / 'in3.txt'), 1, 'reused']]
         specs.append({'start_cwd': str(d), 'contents': pool, 'ops': ops, 'dir': str(d), 'overrides': OVERRIDES})
